@@ -15,6 +15,10 @@ CHECKS = {
          "Tail loops over every chain of <=2 tail-position wrappers x 5 call forms x 3 recursion kinds x 3 definers (longer chains sampled) are run for several iteration counts while a host builtin samples the physical stack each turn (must not grow) and a source hook inspects every elided frame (terminal, never TROBlock); loops through handler-bind / ignore-errors / load-string must keep their frames; generated programs are compared across elimination on, off (dormant debugger) and profiler.",
          "Trusts the dormant-debugger configuration as 'elimination off'; twin pairs whose elimination-off run hits a stack/step limit are not judged; tail positions reached through builtins outside the listed wrappers are not covered.",
          "DESIGN.md 4/C02"),
+ "C03": ("exploration", "hostile-input survival monitor in child worker processes (culprit = last case logged before a fatal throw); oracle lisp.IsInternalPanic, recover around every entry point, per-case watchdog",
+         "Three workloads: hostile sources (random bytes, token soup, mutations of repository .lisp files and generated programs, 26 structured stressors: 10^6-deep brackets and quote chains, recursive macros, runaway recursion, self-containing data into printing/equal?/json/format-string/elpspath, cyclic macro expansions, huge indexes) loaded under MaxSteps, default stack limits, MaxAlloc and a context deadline; a sweep over every function, operator and macro found in the registry at run time x arities 0..max+2 x argument tuples from a pool of ~75 values of every type in fresh runtimes; and the byte corpus through the strict, fault-tolerant and format-preserving readers and the lexer without limits.",
+         "Memory is not bounded by elps: inputs <= 2 MiB, MaxAlloc 1M; the 120 s per-case watchdog is wall clock (cases take milliseconds; a firing ends the worker and is reported with the culprit).",
+         "DESIGN.md 4/C03"),
  "C04": ("fault_enumeration", "twin execution (budget n vs unlimited, cancellation at step k vs unlimited) over every n/k of small programs + hook assertions at every step, push and eval entry",
          "For probe-instrumented programs the unlimited run under a counting context gives N and a step-stamped effect trace; every budget n in 1..N+2 (every n for N<=400) and every cancellation index k must reproduce exactly that trace cut at n (k-1), end with step-limit-exceeded / context-cancelled unless a swallowing form intercepts, and leave outcomes identical for n>=N; budgets refill per top-level evaluation; physical height, eval nesting, tail-iteration and macro-expansion limits are enumerated 3..40 around the recursion depth with hook assertions that the stack never exceeds the maximum and evaluation never proceeds above the nesting maximum, the error is catchable and the runtime usable afterwards; empty dotimes and a pending time:sleep stop on cancellation.",
          "Step stamps come from Runtime.Steps() read inside a host probe builtin; with a swallowing form only events within the budget are compared; tail/macro bounds are judged with one unit of slack; the sleep assertion uses a 20 s wall-clock margin on a 40 s sleep.",
